@@ -7,4 +7,4 @@ META = dict(trusted_base=COMMON_TB + [
 
 
 def items(tier):
-    return contract_items("C13") + [dict(kind="scan", spec="lemmas.l_c13:scan"), dict(kind="bounded", spec="lemmas.l_c13:history")]
+    return contract_items("C13", tier) + [dict(kind="scan", spec="lemmas.l_c13:scan"), dict(kind="bounded", spec="lemmas.l_c13:history")]
